@@ -59,7 +59,13 @@ def program(x):
         bad = ["    Bad(u8)," if shape == "tuple" else "    Bad { x: u8 },"]
     elif rule == "lifetime":
         generics = "<'a>" if shape == "lt" else "<'a, T: Default + Clone + PartialEq + ::core::fmt::Debug + 'a>"
-        if fieldless or d == "EnumTable":
+        if shape == "lt_only_disabled":
+            generics = "<'a>"
+            if d == "EnumTable":
+                ok_variants = [["    Ok1,"], ["    Ok2,"]]
+            else:
+                extra_ok = [["    #[strum(disabled)]", "    Life(&'a str),"]]      # the lifetime is used by a disabled variant only
+        elif fieldless or d == "EnumTable":
             ok_variants = [["    Ok1,"], ["    Ok2,"]]
         else:
             extra_ok = [["    Life(&'a str),"]] + ([["    Ty(Option<&'a T>),"]] if shape == "lt_ty" else [])
@@ -82,9 +88,11 @@ def program(x):
         fa = "#[strum(default_with = \"dw\", default_with = \"dw\")]" if not split else "#[strum(default_with = \"dw\")] #[strum(default_with = \"dw\")]"
         bad = ["    Bad { %s x: u8 }," % fa]
     elif rule == "two_defaults":
-        bad = ["    #[strum(default)]", "    Bad(String),"]
-        first = [["    #[strum(default)]", "    First(String),"]]
-        ok_variants = first + (ok_variants if shape == "apart" else [])
+        named1 = shape in ("named_first", "both_named")
+        named2 = shape in ("named_second", "both_named")
+        bad = ["    #[strum(default)]", "    Bad { text: String }," if named2 else "    Bad(String),"]
+        first = [["    #[strum(default)]", "    First { text: String }," if named1 else "    First(String),"]]
+        ok_variants = first + (ok_variants if shape != "adjacent" else [])
         pos = "last"
     elif rule in ("default_arity", "transparent_arity"):
         body = {"unit": "    Bad,", "tuple2": "    Bad(String, String),", "named2": "    Bad { a: String, b: String },", "tuple0": "    Bad(),"}[shape]
